@@ -147,6 +147,13 @@ Theorem C19_geodesic_range_symmetric : forall (eps : R) red (xs ys : list quatR)
   geodesic_loss eps red xs ys = geodesic_loss eps red ys xs.
 Proof. intros. split; [now apply geodesic_loss_range|apply geodesic_loss_sym]. Qed.
 
+(* the value is the rotation angle between the rotation parts: in [0, pi] (above) with cosine
+   (trace(R_x R_y^-1) - 1) / 2, in the generic regime of Log (angle not within eps of 0 or pi) *)
+Theorem C19_geodesic_is_rotation_angle : forall (eps : R) (x y : quatR), 0 <= eps -> unitq x -> unitq y ->
+  let q := SO3_mul x (SO3_inv y) in eps < vnorm (qv q) -> eps < Rabs (qw q) ->
+  cos (geodesic_theta eps x y) = (m3trace (SO3_matrix q) - 1) / 2.
+Proof. exact geodesic_theta_is_angle. Qed.
+
 (* ------------------------------------------------------------------ the hypotheses are satisfiable *)
 Example C19_chs_kq_example : chs_kq 10 (1 / 10) /\ chs_kq 4 (3 / 10) /\ chs_kq 2 (1 / 2).
 Proof. unfold chs_kq. cbn [Nat.sub INR]. repeat split; try lia; lra. Qed.
@@ -167,3 +174,4 @@ Print Assumptions C19_bspline_constant_twist. Print Assumptions C19_bspline_extr
 Print Assumptions C19_stats_order. Print Assumptions C19_rpe_left_invariant.
 Print Assumptions C19_ape_identical_zero. Print Assumptions C19_rpe_identical_zero.
 Print Assumptions C19_ape_align_invariant_partial. Print Assumptions C19_geodesic_range_symmetric.
+Print Assumptions C19_geodesic_is_rotation_angle.
